@@ -325,7 +325,7 @@ type c19Canon struct {
 
 type c19Net struct {
 	w           *c19World
-	f           int
+	vals        map[uint32][]util.Uint160 // height -> accounts of the validators of that block, by validator index (from the first ledger that got there)
 	nodes       []*c19Node
 	pending     []*c19Msg
 	vclock      atomic.Int64
@@ -343,6 +343,11 @@ type c19Net struct {
 	maxView                int
 	committed              int
 	lastRec                c19RecSeen // the recovery message handed to a service most recently (storyline probes)
+	// set around the hand-over of a payload whose sender is not the validator its index names in the receiver's
+	// ledger (another epoch): the receiver must refuse it ("can't validate payload"), which is then no violation
+	foreignIdx bool
+	sawInvalid bool
+	failed     bool // an oracle has spoken (fail was called): the error is a verdict, not harness trouble
 }
 
 // c19RecSeen describes a delivered recovery message (classification only, no oracle reads it).
@@ -376,9 +381,19 @@ func (net *c19Net) history(maxLines int) string {
 }
 
 func (net *c19Net) fail(f string, a ...any) error {
+	net.failed = true
 	msg := fmt.Sprintf(f, a...)
 	net.logf("VIOLATION %s", msg)
 	return fmt.Errorf("%s%s", msg, net.history(70))
+}
+
+// c19NetErr: an error of c19NewNet is harness trouble unless an oracle produced it (a ledger opened over the
+// bootstrap database answers wrongly).
+func c19NetErr(net *c19Net, err error) error {
+	if net != nil && net.failed {
+		return err
+	}
+	return fmt.Errorf("HARNESS: network: %w", err)
 }
 
 // C19Lim draws small block limits (0 = the default, i.e. never reached): the primary cuts its proposal with
@@ -416,6 +431,9 @@ func (l C19Lim) apply(w *c19World, cfg *config.Blockchain) error {
 	if l.FeeTxs > 0 {
 		cfg.MaxBlockSystemFee = int64(l.FeeTxs) * plain.sysFee
 	}
+	if l.SizeTxs > 0 && w.shift != nil {
+		return fmt.Errorf("bad case: a block size limit in a world whose validator count changes")
+	}
 	if l.SizeTxs > 0 {
 		// the estimate ApplyPolicyToTxSet uses: header with the default multisignature witness of the validators
 		pubs := make(keys.PublicKeys, w.n)
@@ -434,7 +452,7 @@ func (l C19Lim) apply(w *c19World, cfg *config.Blockchain) error {
 }
 
 func c19NewNet(w *c19World, pools [][]int, skewMs []int, bypassDedup, poolFirst bool, lim C19Lim) (*c19Net, error) {
-	net := &c19Net{w: w, f: (w.n - 1) / 3, labels: map[string]bool{}, canon: map[uint32]c19Canon{}, bypassDedup: bypassDedup, poolFirst: poolFirst, lim: lim}
+	net := &c19Net{w: w, vals: map[uint32][]util.Uint160{}, labels: map[string]bool{}, canon: map[uint32]c19Canon{}, bypassDedup: bypassDedup, poolFirst: poolFirst, lim: lim}
 	cfg := w.chain.Blockchain(ck.NodeCfg{Backend: "mem"})
 	if err := lim.apply(w, &cfg); err != nil {
 		return net, err
@@ -457,6 +475,9 @@ func c19NewNet(w *c19World, pools [][]int, skewMs []int, bypassDedup, poolFirst 
 			return net, fmt.Errorf("node %d: opened at height %d, want %d", j, bc.BlockHeight(), w.baseH)
 		}
 		n.seenH = bc.BlockHeight()
+		if err := net.noteValidators(n); err != nil {
+			return net, err
+		}
 		if j < len(pools) {
 			for _, k := range pools[j] {
 				tx, err := c19DecodeTx(w.txs[((k%c19NTx)+c19NTx)%c19NTx])
@@ -506,9 +527,6 @@ func (net *c19Net) start() error {
 		net.logf("start n%d", n.idx)
 		if err := net.after(n); err != nil {
 			return err
-		}
-		if n.snap.myIndex < 0 {
-			return net.fail("node %d is not a validator after Start (MyIndex=%d)", n.idx, n.snap.myIndex)
 		}
 	}
 	return nil
@@ -568,9 +586,18 @@ func (net *c19Net) after(n *c19Node) error {
 		}
 		return net.fail("%v", err)
 	}
-	if h := n.bc.BlockHeight(); n.snap.blockIndex != h+1 {
+	h0 := n.bc.BlockHeight()
+	if err := net.noteValidators(n); err != nil {
+		return err
+	}
+	if h := h0; n.snap.blockIndex != h+1 {
 		// handleChainBlock re-initialises dBFT for every block the chain gains; all notifications are in.
 		return net.fail("node %d: every block notification was processed, its ledger is at height %d, but its consensus works on height %d (expected %d)", n.idx, h, n.snap.blockIndex, h+1)
+	}
+	// Its role follows its ledger: validator #i of the block it works on iff its key is the i-th of the list its
+	// ledger gives for that block, watch-only otherwise.
+	if want := slices.Index(net.vals[h0+1], ck.CommitteeKeys[n.idx].Hash); n.snap.myIndex != want {
+		return net.fail("node %d (key %d): its ledger at height %d lists its key as validator #%d of the next block, its consensus service runs as #%d (-1 = watch-only)", n.idx, n.idx, h0, want, n.snap.myIndex)
 	}
 	if int(n.snap.view) > net.maxView {
 		net.maxView = int(n.snap.view)
@@ -597,6 +624,11 @@ func (net *c19Net) scanLogs(n *c19Node) error {
 	for _, e := range n.logs.TakeAll() {
 		if e.Level >= zapcore.ErrorLevel {
 			return net.fail("node %d logged at %s level: %q %v", n.idx, e.Level, e.Message, e.ContextMap())
+		}
+		if e.Message == "can't validate payload" && net.foreignIdx {
+			net.sawInvalid = true
+			net.label("payload-of-other-epoch-refused")
+			continue
 		}
 		if c19ViolationLogs[e.Message] && !(net.tolerateInvalidRequest && e.Message == "invalid PrepareRequest") {
 			return net.fail("node %d (h%d v%d) rejected a payload of an honest validator: %q %v", n.idx, n.snap.blockIndex, n.snap.view, e.Message, e.ContextMap())
@@ -762,7 +794,66 @@ func (net *c19Net) agreement(n *c19Node) error {
 	}
 	n.seenH = h
 	n.ext.RemoveStale(h) // server.relayBlocksLoop does this for every new block
+	return net.noteValidators(n)
+}
+
+// noteValidators looks at the validators node n's ledger names for its next block: equal on all ledgers of that
+// height, in a shift world the set the protocol rules give (standby prefix / election result, old count up to
+// the refresh block, new count after it), and every one of them an allowed sender of extensible payloads
+// (Blockchain.IsExtensibleAllowed: what extpool.Pool, i.e. the network server, asks for every consensus payload).
+func (net *c19Net) noteValidators(n *c19Node) error {
+	h := n.bc.BlockHeight()
+	pubs, err := n.bc.GetNextBlockValidators()
+	if err != nil {
+		return net.fail("node %d: GetNextBlockValidators at height %d: %v", n.idx, h, err)
+	}
+	accs := make([]util.Uint160, len(pubs))
+	var set []int
+	for i, p := range pubs {
+		accs[i] = p.GetScriptHash()
+		set = append(set, slices.IndexFunc(ck.CommitteeKeys, func(k ck.Key) bool { return k.Pub.Equal(p) }))
+	}
+	if have, ok := net.vals[h+1]; ok {
+		if !slices.Equal(have, accs) {
+			return net.fail("node %d: its ledger at height %d names validators (keys %v) for block %d that differ from what another ledger of the same height names", n.idx, h, set, h+1)
+		}
+		return nil // already looked at (same list)
+	}
+	net.vals[h+1] = accs
+	want := net.w.pre
+	if net.w.refresh != 0 && h >= net.w.refresh {
+		want = net.w.post
+		if !slices.Equal(net.w.pre, net.w.post) {
+			net.label("validators-changed")
+		}
+	}
+	sorted := slices.Clone(set)
+	slices.Sort(sorted)
+	if !slices.Equal(sorted, want) {
+		return net.fail("node %d: its ledger at height %d names the committee keys %v as validators of block %d, by the protocol rules (%s) they are %v", n.idx, h, set, h+1, net.w.shiftString(), want)
+	}
+	for i, a := range accs {
+		if !n.bc.IsExtensibleAllowed(a) {
+			return net.fail("node %d: its ledger at height %d names committee key %d as validator #%d of block %d but does not allow it to send extensible (consensus) payloads", n.idx, h, set[i], i, h+1)
+		}
+	}
 	return nil
+}
+
+// maySilence: silencing node n keeps at most f members of every validator list of the run silent.
+func (net *c19Net) maySilence(n *c19Node) bool {
+	for _, s := range [][]int{net.w.pre, net.w.post} {
+		k := 0
+		for _, j := range s {
+			if j == n.idx || net.nodes[j].silent {
+				k++
+			}
+		}
+		if slices.Contains(s, n.idx) && k > (len(s)-1)/3 {
+			return false
+		}
+	}
+	return true
 }
 
 func (net *c19Net) maxHeight() (uint32, *c19Node) {
@@ -801,11 +892,27 @@ func (net *c19Net) deliver(m *c19Msg) error {
 		if err != nil {
 			return net.fail("payload %d>%d does not decode from its wire form: %v", m.from, m.to, err)
 		}
+		// What the receiver's ledger says about the sender (the list was recorded from the first ledger that reached
+		// this height): the sender must be allowed by the pool iff it is a validator of the receiver's next block,
+		// and the service must take the payload iff the sender is the validator the payload's index names.
+		dh := dst.bc.BlockHeight()
+		curVals := net.vals[dh+1]
+		isVal := slices.Contains(curVals, e.Sender)
+		idxOK := int(info.from) < len(curVals) && curVals[info.from] == e.Sender
+		// server.handleExtensibleCmd: extensiblePool.Add (witness, height window, IsExtensibleAllowed(sender),
+		// de-duplication) decides whether the consensus handler sees the payload at all.
 		ok, err := dst.ext.Add(e)
 		if err != nil {
 			if errors.Is(err, extpool.ErrInvalidHeight) {
 				net.label("stale-payload")
 				net.logf("deliver %d>%d %s: stale for height %d", m.from, m.to, m.desc, dst.bc.BlockHeight())
+				return nil
+			}
+			if !isVal && err.Error() == "disallowed sender" {
+				// a validator of another epoch than the one the receiver's ledger is in (the receiver lags behind the
+				// refresh block or is already past it): the real node drops the payload (and the peer) too
+				net.label("payload-of-other-epoch-refused")
+				net.logf("deliver %d>%d %s: sender is no validator of block %d, refused by the pool", m.from, m.to, m.desc, dst.bc.BlockHeight()+1)
 				return nil
 			}
 			return net.fail("node %d (chain height %d): extensible pool refuses the payload of honest node %d (%s): %v", m.to, dst.bc.BlockHeight(), m.from, info, err)
@@ -842,8 +949,15 @@ func (net *c19Net) deliver(m *c19Msg) error {
 		if err := dst.srv.OnPayload(e); err != nil {
 			return net.fail("node %d: OnPayload(%s from node %d) = %v", m.to, info, m.from, err)
 		}
-		if err := net.after(dst); err != nil {
+		net.foreignIdx = !idxOK
+		err = net.after(dst)
+		refused := net.sawInvalid
+		net.foreignIdx, net.sawInvalid = false, false
+		if err != nil {
 			return err
+		}
+		if !idxOK && !refused {
+			return net.fail("node %d (ledger height %d) handed the payload %s of node %d to its consensus although the sender is not validator #%d of block %d by its ledger", m.to, dh, info, m.from, info.from, dh+1)
 		}
 		if rec != nil {
 			return net.recoveryTransfer(dst, rec, info, m.from)
